@@ -16,7 +16,8 @@ Driver-side relational clauses (on the returned table only):
   z_orbit           the n sub-units share the parent's z-axis; geom2 -> geom2+1 (and n -> 1) is a turn of 360/n about it, for
                     orientations (G_k^T G_k+1 = Rz(360/n)) and for the arms position - centre (Rodrigues about R.ez)
   on_axis_coincide  s on the axis: all n sub-units of a parent have the same complete position
-  spelling_agree    'Cn', 'cn', n and float(n) give the same table (compared after ordering by geom5, geom2)
+  spelling_agree    'Cn', 'cn', n and float(n) give the same sub-units: after ordering by (geom5, geom2) equal parent, index,
+                    inherited fields, complete positions and orientation matrices (numbering and Euler spelling not compared)
 Exhaustive sub-space (extra): every n in 1..32 (quick) / 1..64 (thorough) x the four spellings x {generic, on-axis, zero} offset.
 """
 import types
@@ -68,10 +69,10 @@ def plan(tier):
                     min_evals=dict({c: call_min for c in CLAUSES}, recentre=call_min, back_to_centre=700, z_orbit=700,
                                    spelling_agree=400, on_axis_coincide=80),
                     min_anchor_calls={"Motl.split_in_asymmetric_subunits": call_min})
-    call_min = 8000
-    return dict(n_cases=4800, shards=16, classes=CLASSES, timeout_s=3000,
-                min_evals=dict({c: call_min for c in CLAUSES}, recentre=call_min, back_to_centre=8000, z_orbit=8000,
-                               spelling_agree=4800, on_axis_coincide=1000),
+    call_min = 6400
+    return dict(n_cases=3200, shards=16, classes=CLASSES, timeout_s=3000,
+                min_evals=dict({c: call_min for c in CLAUSES}, recentre=call_min, back_to_centre=6400, z_orbit=6400,
+                               spelling_agree=3200, on_axis_coincide=700),
                 min_anchor_calls={"Motl.split_in_asymmetric_subunits": call_min})
 
 
